@@ -145,6 +145,8 @@ package sigbits
 //@ func ShardByPrefix returns (L, B)
 //@   requires len(keys) >= 1 && len(keys) < 1<<30 && maxSize >= 1
 //@   requires forall i int :: 0 <= i && i < len(keys) ==> len(keys[i]) < 1<<27
+// the keys are strictly ascending (byte-lexicographic)
+//@   requires forall i int :: 0 <= i && i < len(keys) - 1 ==> strLess(keys[i], keys[i+1])
 //@   ensures len(L) >= 1 && len(B) == len(L) + 1 && B[0] == 0 && B[len(B)-1] == int32(len(keys))
 //@   ensures forall j int :: 0 <= j && j < len(L) ==> 0 <= B[j] && B[j] < B[j+1] && B[j+1] - B[j] <= maxSize
 //@   assigns nothing
